@@ -667,6 +667,8 @@ class Engine:
         self.ctx_children = {}
         self.timer_log = []
         self.chan_hooks = {}
+        self.wg_counters = {}
+        self.sched = None
         self.epoch += 1
         outcome = 'ok'
         self.path_obs = []
@@ -690,6 +692,9 @@ class Engine:
             where = ' <- '.join(reversed(self.callstack[-6:]))
             self.inconclusive.append('unsupported: %s at %s' % (e, where))
         finally:
+            if self.sched is not None:
+                self.sched.kill_all()
+                self.sched = None
             self.rollback()
             self.stats.instrs += self.path_instrs
         self.stats.paths += 1
@@ -780,6 +785,7 @@ class Engine:
         return self.call(self.prog.funcs[t.methods[method]], [recv.v] + args)
 
     special_invoke = {}
+    sched = None
 
     def call(self, fn, args, binds=(), raw=False):
         name = fn.name
@@ -881,7 +887,10 @@ class Engine:
                         while defers:
                             self.run_prepared(defers.pop())
                     elif op == 'Go':
-                        self.spawned.append(self.prep_call(ins, regs))
+                        p = self.prep_call(ins, regs)
+                        self.spawned.append(p)
+                        if self.sched is not None:
+                            self.sched.spawn(lambda p=p: self.run_prepared(p), name='go@%s:%d' % (fn.short, ins.ln))
                     elif op == 'Panic':
                         raise GoPanic('explicit', self.ev(ins.x, regs))
                     elif op == 'Select':
@@ -1537,7 +1546,57 @@ class Engine:
             return True
         return False
 
+    def in_goroutine(self):
+        return self.sched is not None and self.sched.cur is not None
+
+    def _truth(self, c):
+        return c if type(c) is bool else self.branch(c)
+
+    def sched_send(self, ch, v, from_select=False):
+        S = self.sched
+        if ch is None:
+            S.block(lambda: False, what='send on nil channel')
+        if ch.closed:
+            raise GoPanic('send-on-closed-chan')
+        if ch.sink:
+            self.chan_touch(ch)
+            ch.items.append(v)
+            ch.sent += 1
+            hook = self.chan_hooks.get(id(ch))
+            if hook is not None:
+                self.call_value(hook, [v])
+            return
+        if ch.cap > 0 or ch.symlen is not None:
+            S.block(lambda: ch.closed or self._truth(self.chan_can_send(ch)), what='send on full channel')
+            if ch.closed:
+                raise GoPanic('send-on-closed-chan')
+            self.chan_touch(ch)
+            ch.items.append(v)
+            ch.sent += 1
+            return
+        # unbuffered: offer the value, then wait until a receiver has taken it
+        self.chan_touch(ch)
+        ch.items.append(v)
+        ch.sent += 1
+        mine = ch.sent
+        S.block(lambda: ch.recvd >= mine, what='send on unbuffered channel (no receiver)')
+
+    def sched_recv(self, ch, commaok, elem_t):
+        S = self.sched
+        if ch is None:
+            S.block(lambda: False, what='receive on nil channel')
+        S.block(lambda: bool(ch.items) or ch.closed, waitrecv=(ch,), what='receive')
+        if ch.items:
+            self.chan_touch(ch)
+            v = ch.items.pop(0)
+            ch.recvd += 1
+            return (v, True) if commaok else v
+        z = self.zero(elem_t)
+        return (z, False) if commaok else z
+
     def chan_send(self, ch, v):
+        if self.in_goroutine():
+            return self.sched_send(ch, v)
         if ch is None:
             raise Blocked()
         if ch.closed:
@@ -1555,6 +1614,8 @@ class Engine:
             self.call_value(hook, [v])
 
     def chan_recv(self, ch, commaok, elem_t):
+        if self.in_goroutine():
+            return self.sched_recv(ch, commaok, elem_t)
         if ch is None:
             raise Blocked()
         if ch.items:
@@ -1570,17 +1631,35 @@ class Engine:
     def do_select(self, ins, regs):
         d = ins.d
         states = d['states'] or []
-        ready = []
-        for idx, st in enumerate(states):
-            ch = self.ev(st['chan'], regs)
-            if st['dir'] == 1:  # send
-                c = self.chan_can_send(ch)
-            else:
-                c = self.chan_can_recv(ch)
-            if type(c) is not bool:
-                c = self.branch(c)
-            if c:
-                ready.append((idx, st, ch))
+        gor = self.in_goroutine()
+        chans = [self.ev(st['chan'], regs) for st in states]
+
+        def ready_cases():
+            r = []
+            for idx, st in enumerate(states):
+                ch = chans[idx]
+                if st['dir'] == 1:  # send
+                    if gor and ch is not None and not ch.sink and not ch.closed and ch.cap == 0 and ch.symlen is None:
+                        c = self.sched.receivers_waiting(ch, exclude=self.sched.cur)
+                    else:
+                        c = self.chan_can_send(ch)
+                else:
+                    c = self.chan_can_recv(ch)
+                if type(c) is not bool:
+                    c = self.branch(c)
+                if c:
+                    r.append((idx, st, ch))
+            return r
+        ready = ready_cases()
+        if gor and not ready and d['blocking']:
+            box = []
+
+            def pred():
+                box[:] = ready_cases()
+                return bool(box)
+            self.sched.block(pred, waitrecv=tuple(c for c, st in zip(chans, states) if st['dir'] != 1 and c is not None),
+                             what='select on %d cases' % len(states))
+            ready = list(box)
         tt = self.types[ins.t].u.tuple
         nrecv = len(tt) - 2
 
